@@ -317,6 +317,11 @@ func genC14(r *rand.Rand, n int, emit func(string)) {
 		for j := 0; j < r.Intn(4); j++ {
 			doc[ordinaryName(r)] = SimpleValue(r, 2)
 		}
+		if r.Intn(9) == 0 {
+			// ordinary names that begin like a protected member
+			doc[pick(r, []string{"services", "publicKeys", "serviceEndpoint", "publicKeyBase58", "service2", "publicKey_"})] = SimpleValue(r, 1)
+			label = "doc/names-beginning-like-protected"
+		}
 		if r.Intn(6) == 0 {
 			// names that need escaping: as a JSON-pointer token (/ and ~) or inside a JSON string (quote, backslash, control)
 			for j := 0; j < 1+r.Intn(2); j++ {
